@@ -18,6 +18,8 @@ import vtime
 
 vt = vtime.install()
 import bacpypes.core as core
+import bacpypes.task as task_module
+from bacpypes.task import TaskManager
 import bacpypes.task as task
 from bacpypes.task import OneShotTask, RecurringTask
 
@@ -27,8 +29,9 @@ NONE = -1
 class Rig:
     """A real TaskManager with instrumented tasks / deferred functions, driven by Kernel.tla operations."""
 
-    def __init__(self, K, rec, interval, offset, task_defers, F, fn_defers, traises, fraises, unit=1.0, task_does=None, loop="run_once"):
+    def __init__(self, K, rec, interval, offset, task_defers, F, fn_defers, traises, fraises, unit=1.0, task_does=None, loop="run_once", early=False):
         self.task_does = task_does or {}
+        self.early = early
         self.loop = loop            # "run_once" | "run": which of the library's two loops executes a pass
         self.K, self.F, self.rec = list(K), list(F), set(rec)
         self.interval, self.offset = interval, offset
@@ -62,6 +65,8 @@ class Rig:
                 # the library computes the slot in floats (integral only to ~1e-9): snap it to the model's
                 # microsecond grid so that collisions with one-shot times are reproducible; the float-level
                 # behaviour is examined separately by recurring_float_grid()
+                if self.taskTime is None:
+                    return              # no task manager yet: the library only remembers the task
                 snapped = round(self.taskTime, 6)
                 if snapped != self.taskTime:
                     import heapq
@@ -69,6 +74,10 @@ class Rig:
                     vt.tm.tasks = [(snapped, e[1], e[2]) if e[2] is self else e for e in vt.tm.tasks]
                     heapq.heapify(vt.tm.tasks)
         self.tasks = {k: (Rc(k) if k in self.rec else One(k)) for k in self.K}
+        del task_module._unscheduled_tasks[:]
+        if early:
+            # as at import time: no task manager yet (the library's module global; the object itself stays)
+            task_module._task_manager = None
 
     def mnow(self):
         return int(round(vt.now / self.unit))
@@ -143,6 +152,15 @@ class Rig:
                 self._pass_of_core_run()
             else:
                 core.run_once()
+        elif op == "start":
+            # the library's own start-up code: TaskManager.__init__ installs what was remembered
+            # (the singleton guard is lifted for the call: the object is the one that will be registered again)
+            TaskManager._singleton_instance = None
+            try:
+                TaskManager.__init__(vt.tm)
+            finally:
+                TaskManager._singleton_instance = vt.tm
+            del task_module._unscheduled_tasks[:]
         elif op == "tick":
             vt.now = (self.mnow() + a) * self.unit       # the clock moves, the loop does not run
         else:
@@ -160,6 +178,8 @@ class Rig:
             "out": [list(x) for x in self.fired],
             "called": list(self.called),
             "submitted": list(self.submitted),
+            "mgr": task_module._task_manager is not None,
+            "early": [t.k for t in task_module._unscheduled_tasks if hasattr(t, "k")] if task_module._task_manager is None else [],
         }
 
 
@@ -174,6 +194,8 @@ CONFIGS = {
     # many one-shot timers pending at once (trace validation only): removals from the middle of a deep heap
     "h": dict(K=list(range(1, 13)), rec=[], interval={}, offset={}, task_defers={}, F=[1], fn_defers={},
               task_does={1: ("suspend", 2, 0), 3: ("at", 4, 2), 5: ("suspend", 6, 0), 7: ("at", 8, 5)}),
+    # tasks installed before a task manager exists (module-level recurring functions, constructors run before core.run)
+    "boot": dict(K=[1, 2, 3, 4, 5], rec=[4, 5], interval={4: 2, 5: 2}, offset={4: 0, 5: 0}, task_defers={}, F=[1], fn_defers={}, early=True),
     # tasks that act on other tasks from inside process_task: a handler cancelling a timeout, a handler re-arming one
     "e": dict(K=[1, 2, 3, 4], rec=[], interval={}, offset={}, task_defers={}, F=[1], fn_defers={},
               task_does={1: ("suspend", 2, 0), 3: ("at", 4, 1)}),
@@ -226,7 +248,7 @@ def cfg_for(c, mode, traises_sets="{{}}", fraises_sets="{{}}", times="{1, 2}", d
             "FnDefers": tla_fn(c["fn_defers"], range(1, max(c["F"]) + 1)),
             "TaskRaisesSets": traises_sets, "FnRaisesSets": fraises_sets,
             "TaskDoes": "<<" + ", ".join('<<"%s", %d, %d>>' % tuple(c.get("task_does", {}).get(k, ("none", 0, 0))) for k in range(1, n + 1)) + ">>"}
-    consts = {"K": tla_set(c["K"]), "Rec": tla_set(rec), "F": tla_set(c["F"]), "Times": times, "Deltas": deltas, "Steps": steps, "TickSteps": ticks, "MaxLevel": str(maxlevel),
+    consts = {"K": tla_set(c["K"]), "Rec": tla_set(rec), "F": tla_set(c["F"]), "Times": times, "Deltas": deltas, "Steps": steps, "TickSteps": ticks, "MaxLevel": str(maxlevel), "MgrAtStart": "FALSE" if c.get("early") else "TRUE",
               "DropBatchOnRaise": "TRUE" if drop else "FALSE"}
     if mode == "mc":
         lines = ["SPECIFICATION Spec", "CONSTRAINT Bound", "CHECK_DEADLOCK FALSE"]
@@ -344,6 +366,14 @@ HANGS = [0]
 def record_history(c, traises, fraises, ops, loop="run_once"):
     if HANGS[0] >= 3:
         return []           # the kernel hangs; three demonstrations are enough, do not burn 10 s per history
+    try:
+        return _record_history(c, traises, fraises, ops, loop)
+    finally:
+        task_module._task_manager = vt.tm               # (a history that began before the manager existed ends with it in place)
+        del task_module._unscheduled_tasks[:]
+
+
+def _record_history(c, traises, fraises, ops, loop):
     rig = Rig(traises=traises, fraises=fraises, loop=loop, **c)
     evs = []
     for op, k, a in ops:
@@ -406,7 +436,8 @@ def validate_traces(chk, name, c, traces, label):
     tf = os.path.join(wd, "traces.ndjson")
     with open(tf, "w") as f:
         for t in traces:
-            f.write(json.dumps({"tid": t["tid"], "traises": t["traises"], "fraises": t["fraises"], "evs": t["evs"]}) + "\n")
+            f.write(json.dumps({"tid": t["tid"], "traises": t["traises"], "fraises": t["fraises"], "evs": t["evs"],
+                                "mgr0": not c.get("early")}) + "\n")
     defs, consts, lines = cfg_for(c, "trace")
     body = "---- MODULE TRgen_%s ----\nEXTENDS Trace_Kernel\n" % name
     for k, v in defs.items():
@@ -621,6 +652,8 @@ def main(tier, seed):
     run_mc(chk, "t", t, traises_sets="{{}}", fraises_sets="SUBSET {1, 2, 3, 4, 5, 6}", times="{1}", deltas="{0}",
            steps="{0, 1}", maxlevel=7 if thorough else 5)
     run_mc(chk, "e", CONFIGS["e"], traises_sets="{{}, {1}}", times="{1, 2}", deltas="{1}", steps="{0, 1, 2}", maxlevel=7 if thorough else 6)
+    run_mc(chk, "boot", dict(CONFIGS["boot"], K=[1, 2, 3], rec=[3], interval={3: 2}, offset={3: 0}), traises_sets="{{}}", times="{1, 2}",
+           deltas="{1}", steps="{0, 1, 2}", maxlevel=7 if thorough else 6)
     # the clock also moves between passes (Tick): installations are relative to the clock as it is then
     tk = dict(K=[1, 2], rec=[2], interval={2: 2}, offset={2: 1}, task_defers={}, F=[1], fn_defers={})
     run_mc(chk, "tick", tk, traises_sets="{{}}", times="{1, 3}", deltas="{1}", steps="{0, 1}", ticks="{1}", maxlevel=7 if thorough else 6)
@@ -674,7 +707,18 @@ def main(tier, seed):
         traces.append(("t", {"tid": base, "traises": [], "fraises": sub, "evs": evs, "ops": [list(o) for o in ops]}))
         chk.case(("batch", tuple(sub), len(ops)), nontrivial=bool(sub), n=len(evs))
         chk.monitor("FailureIsolation", 1 if sub else 0)
-    for cname in ("a", "r", "t", "h", "e"):
+    for i in range(200 if thorough else 60):
+        c = CONFIGS["boot"]
+        ops = []
+        for _ in range(rng.randint(2, 8)):
+            k = rng.choice(c["K"])
+            ops.append(("rec", k, 0) if k in c["rec"] else ("at", k, rng.choice([0, 1, 1, 2, 2, 3])))
+        ops.append(("start", 0, 0))
+        ops += random_ops(rng, c, rng.choice([6, 12, 25]), times=(0, 1, 2, 3), deltas=(0, 1, 2), steps=(0, 1, 1, 2, 3))
+        evs = record_history(c, [], [], ops)
+        traces.append(("boot", {"tid": 4000000 + i, "traises": [], "fraises": [], "evs": evs, "ops": [list(o) for o in ops]}))
+        chk.case(("BOOT", i), nontrivial=True, n=len(evs))
+    for cname in ("a", "r", "t", "h", "e", "boot"):
         validate_traces(chk, cname, CONFIGS[cname], [x for n_, x in traces if n_ == cname], cname)
     recurring_float_grid(chk, rng, 0)
     core_run_loop(chk, rng, 300 if thorough else 60)
